@@ -17,14 +17,16 @@ import (
 func init() { register(&Spec{ID: "C14", Targets: []load.Target{load.Linux, load.Wasm}, Run: runC14}) }
 
 func runC14(c *core.Ctx) {
-	runFixtures(c, "drop", "nilguard")
-	c.Explain("Structural clauses of C14 decided from source; 'inject a fault at each store call index' becomes 'follow the error edge of each fallible call': (R14.1) the []OpResult of every Transaction.Commit in packages keyvalue/mem is not discarded: it is returned to a caller that reads it, or each element's Err is read and reaches a return; (R14.2) for every fallible call in package keyvalue (Store/Transaction/FileRecord/blob calls, save, setFile, getFile…, on both the serial-fallback and TransactionStore paths) the error is returned, wrapped or handed on along every failing path (accepted: errors.Is(ErrNotExist/ErrExist) look-up idioms — those are not store failures —, closing read-only handles, aborting on an error path); (R14.3a) the pointer/interface result that came with a non-nil error is never invoked or dereferenced on that path; (R14.3b) a struct field assigned together with an error field from one call is never invoked without a dominating nil-test of it or of the paired error; (R14.4) each Go-level Transaction implementation stores the store's Get/Set error into the recorded OpResult.Err. (R14.5) a function of package keyvalue that answers a list of paths with slices allocated as make(T, len(paths)) returns those slices on every path: a nil or shorter slice on the store-failure path makes the callers, which index by path, panic instead of returning the error. (R14.6) where an operation stores a record under a new name and deletes it under the old one in one transaction (Rename of a file), the store is issued with a handler that aborts the transaction when the store's result carries an error — with a plain Set the serial fallback runs the delete although the store was refused, and the file exists under neither name. NOT claimed: that a fresh look-up shows exactly what the store holds after a fault, hang-freedom, panics from index expressions on result slices, examples/s3 (not loadable offline).")
+	runFixtures(c, "drop", "nilguard", "once", "notexist")
+	c.Explain("Structural clauses of C14 decided from source; 'inject a fault at each store call index' becomes 'follow the error edge of each fallible call': (R14.1) the []OpResult of every Transaction.Commit in packages keyvalue/mem is not discarded: it is returned to a caller that reads it, or each element's Err is read and reaches a return; (R14.2) for every fallible call in package keyvalue (Store/Transaction/FileRecord/blob calls, save, setFile, getFile…, on both the serial-fallback and TransactionStore paths) the error is returned, wrapped or handed on along every failing path (accepted: errors.Is(ErrNotExist/ErrExist) look-up idioms — those are not store failures —, closing read-only handles, aborting on an error path); (R14.3a) the pointer/interface result that came with a non-nil error is never invoked or dereferenced on that path; (R14.3b) a struct field assigned together with an error field from one call is never invoked without a dominating nil-test of it or of the paired error; (R14.4) each Go-level Transaction implementation stores the store's Get/Set error into the recorded OpResult.Err. (R14.5) a function of package keyvalue that answers a list of paths with slices allocated as make(T, len(paths)) returns those slices on every path: a nil or shorter slice on the store-failure path makes the callers, which index by path, panic instead of returning the error. (R14.6) where an operation stores a record under a new name and deletes it under the old one in one transaction (Rename of a file), the store is issued with a handler that aborts the transaction when the store's result carries an error — with a plain Set the serial fallback runs the delete although the store was refused, and the file exists under neither name. (R14.7) every closure given to sync.Once.Do in package keyvalue that calls something fallible stores the error into a field, never into a captured local (later calls skip the closure); (R14.8) a function of keyvalue/mem that reads an OpResult returns the ErrNotExist sentinel only where that OpResult's Err was found nil. NOT claimed: that a fresh look-up shows exactly what the store holds after a fault, hang-freedom, panics from index expressions on result slices, examples/s3 (not loadable offline).")
 	c.Assume("A1: a Store/Transaction/FileRecord implementation reports failure through its error result", "A6: partial correctness")
 	c.RuleDoc("R14.1", "commit results are read")
 	c.RuleDoc("R14.2", "no store-layer error dropped on any failing path in package keyvalue")
 	c.RuleDoc("R14.3", "no use of a value that came with an error (call results and paired fields)")
 	c.RuleDoc("R14.6", "in a move, the delete of the old name is conditional on the store of the new one")
 	c.RuleDoc("R14.5", "per-path result slices keep the input's length on the failure path")
+	c.RuleDoc("R14.7", "the error of a run-once (sync.Once) evaluation is memoised in a field, not in a local")
+	c.RuleDoc("R14.8", "ErrNotExist is answered only where the operation's own error was found nil")
 	c.RuleDoc("R14.4", "transaction implementations record store errors")
 	for _, p := range c.Progs {
 		c.SetProg(p)
@@ -36,6 +38,8 @@ func runC14(c *core.Ctx) {
 			r14ParallelShape(c, p)
 			r14ConditionalMove(c, p)
 			r14ParallelUse(c, p)
+			r14OnceKeepsError(c, p)
+			r14ErrBeforeNotExist(c, p)
 		}
 	}
 	c.Floor("R14.1", 4)
@@ -44,6 +48,8 @@ func runC14(c *core.Ctx) {
 	c.Floor("R14.4", 4)
 	c.Floor("R14.5", 3)
 	c.Floor("R14.6", 1)
+	c.Floor("R14.7", 2)
+	c.Floor("R14.8", 1)
 }
 
 func pkgFuncs(p *load.Program, rel string) []*ssa.Function {
@@ -804,5 +810,190 @@ func r14ParallelUse(c *core.Ctx, p *load.Program) {
 				}
 			}
 		})
+	}
+}
+
+// ---- R14.7: a run-once evaluation keeps its error where later calls find it ----
+
+// onceErrSites: for every closure passed to (*sync.Once).Do in fns that calls something fallible, the error result is
+// stored into a field (memoised next to the value); an error stored into a captured local of the enclosing function
+// exists only during the first call — every later call skips the closure and returns the zero value, so a failed
+// listing answers "no entries, nil" the second time.
+type onceSite struct {
+	fn  *ssa.Function // the enclosing function
+	pos token.Pos
+	bad string
+}
+
+func onceErrSites(p *load.Program, fns []*ssa.Function) []*onceSite {
+	var out []*onceSite
+	for _, fn := range fns {
+		if fn.Blocks == nil {
+			continue
+		}
+		ssax.Instrs(fn, func(ins ssa.Instruction) {
+			cl, ok := ins.(ssa.CallInstruction)
+			if !ok {
+				return
+			}
+			callee := ssax.StaticCallee(cl)
+			if callee == nil || callee.Name() != "Do" || callee.Signature.Recv() == nil || !strings.HasSuffix(callee.Signature.Recv().Type().String(), "sync.Once") || len(cl.Common().Args) != 2 {
+				return
+			}
+			mc, ok := cl.Common().Args[1].(*ssa.MakeClosure)
+			if !ok {
+				return
+			}
+			body := mc.Fn.(*ssa.Function)
+			fallible := false
+			var local token.Pos
+			ssax.Instrs(body, func(i2 ssa.Instruction) {
+				if c2, ok := i2.(*ssa.Call); ok && ssax.ErrorValueOf(c2) != nil {
+					fallible = true
+				}
+				if st, ok := i2.(*ssa.Store); ok && ssax.IsErrorType(st.Val.Type()) {
+					if _, isFree := st.Addr.(*ssa.FreeVar); isFree {
+						local = st.Pos()
+					}
+				}
+			})
+			if !fallible {
+				return
+			}
+			s := &onceSite{fn: fn, pos: cl.Pos()}
+			if local != token.NoPos {
+				s.bad = p.Pos(local)
+			}
+			out = append(out, s)
+		})
+	}
+	return out
+}
+
+func r14OnceKeepsError(c *core.Ctx, p *load.Program) {
+	ord := ordinals{}
+	sites := onceErrSites(p, pkgFuncs(p, "keyvalue"))
+	for _, s := range sites {
+		key := ord.next(fname(s.fn) + "|run-once-error-memoised")
+		if s.bad != "" {
+			c.Bad("R14.7", key, s.bad, fmt.Sprintf("%s evaluates a fallible call inside sync.Once.Do and stores its error into a local variable of the enclosing call (%s): only the first call sees it — every later call skips the closure and returns the memoised (empty) value with a nil error, a success that does not show what the store holds", fname(s.fn), s.bad))
+		} else {
+			c.OK("R14.7", key, p.Pos(s.pos), "the error of the run-once evaluation is memoised in a field")
+		}
+	}
+}
+
+// ---- R14.8: a store failure is not reported as "does not exist" ----
+
+// notExistBeforeErr: returns of the ErrNotExist sentinel (bare or wrapped in a freshly built *PathError/*LinkError) in
+// functions that read an OpResult's Err field, where the return is not dominated by "that Err is nil": the operation's
+// own error must be consulted first — a failed Get (nil record + I/O error) answered with ErrNotExist makes callers
+// that branch on ErrNotExist create over, or replace, what the store still holds.
+type notExistSite struct {
+	fn  *ssa.Function
+	pos token.Pos
+	bad bool
+}
+
+func isOpResultErr(v ssa.Value) bool {
+	v = ssax.Unwrap(v)
+	var st types.Type
+	var idx int
+	switch x := v.(type) {
+	case *ssa.UnOp:
+		fa, ok := x.X.(*ssa.FieldAddr)
+		if !ok || x.Op != token.MUL {
+			return false
+		}
+		st, idx = fa.X.Type(), fa.Field
+	case *ssa.Field:
+		st, idx = x.X.Type(), x.Field
+	default:
+		return false
+	}
+	if pt, ok := st.Underlying().(*types.Pointer); ok {
+		st = pt.Elem()
+	}
+	n, ok := types.Unalias(st).(*types.Named)
+	if !ok || n.Obj().Name() != "OpResult" {
+		return false
+	}
+	s, ok := n.Underlying().(*types.Struct)
+	return ok && idx < s.NumFields() && s.Field(idx).Name() == "Err"
+}
+
+func notExistSites(p *load.Program, fns []*ssa.Function) []*notExistSite {
+	var out []*notExistSite
+	isNotExist := func(v ssa.Value) bool {
+		g := ssax.GlobalLoad(ssax.Unwrap(v))
+		return g != nil && sentinelOfGlobal(g) == "ErrNotExist"
+	}
+	for _, fn := range fns {
+		if fn.Blocks == nil {
+			continue
+		}
+		reads := false
+		ssax.Instrs(fn, func(ins ssa.Instruction) {
+			if v, ok := ins.(ssa.Value); ok && isOpResultErr(v) {
+				reads = true
+			}
+		})
+		if !reads {
+			continue
+		}
+		eidx := ssax.ErrorResultIndex(fn.Signature)
+		if eidx < 0 {
+			continue
+		}
+		for _, r := range ssax.Returns(fn) {
+			e := resolveSpilled(r.Results[eidx], r)
+			hit := isNotExist(e)
+			if !hit {
+				// &PathError{Err: ErrNotExist}
+				if mi, ok := e.(*ssa.MakeInterface); ok {
+					if a, ok := mi.X.(*ssa.Alloc); ok && a.Referrers() != nil {
+						for _, ref := range *a.Referrers() {
+							if fa, ok := ref.(*ssa.FieldAddr); ok && fa.Referrers() != nil {
+								for _, r2 := range *fa.Referrers() {
+									if st, ok := r2.(*ssa.Store); ok && isNotExist(st.Val) {
+										hit = true
+									}
+								}
+							}
+						}
+					}
+				}
+			}
+			if !hit {
+				continue
+			}
+			s := &notExistSite{fn: fn, pos: r.Pos(), bad: true}
+			for _, f := range ssax.FactsAtInstr(r) {
+				if x, eq, ok := ssax.NilTest(f.Cond); ok && isOpResultErr(x) && eq == f.Val {
+					s.bad = false
+				}
+			}
+			out = append(out, s)
+		}
+	}
+	return out
+}
+
+func r14ErrBeforeNotExist(c *core.Ctx, p *load.Program) {
+	ord := ordinals{}
+	var fns []*ssa.Function
+	fns = append(fns, pkgFuncs(p, "keyvalue")...)
+	fns = append(fns, pkgFuncs(p, "mem")...)
+	sites := notExistSites(p, fns)
+	for _, s := range sites {
+		key := ord.next(fname(s.fn) + "|not-exist-only-after-the-operation-error")
+		if s.bad {
+			c.Bad("R14.8", key, p.Pos(s.pos), fmt.Sprintf("%s answers ErrNotExist at %s without having found the operation's own error (OpResult.Err) nil on that path: a failed Get (no record AND an I/O error) is reported as 'does not exist', and callers that branch on ErrNotExist then create over or replace what the store still holds — Mkdir over an existing file, Rename over a populated directory — and return nil", fname(s.fn), p.Pos(s.pos)))
+		} else {
+			c.OK("R14.8", key, p.Pos(s.pos), "ErrNotExist is answered only where the operation's error is nil")
+		}
+	}
+	if len(sites) == 0 {
+		c.OK("R14.8", "no-own-not-exist", "", "no function that reads an OpResult answers ErrNotExist on its own: the store's error (which is ErrNotExist for a missing key) is handed on as it is")
 	}
 }
